@@ -740,8 +740,9 @@ impl Server {
             
             // Read data from connection
             match conn.read() {
-                Ok(true) => {
-                    // Data was read, try to parse all available frames with improved error handling
+                Ok(new_data) if new_data || std::mem::take(&mut conn.unparsed_input) => {
+                    // Data was read (now, or by the hang-up probe while the client was blocked), try to parse all
+                    // available frames with improved error handling
                     loop {
                         match conn.parse_frame() {
                             Ok(Some(frame)) => frames_to_process.push(frame),
@@ -772,7 +773,7 @@ impl Server {
                         }
                     }
                 }
-                Ok(false) => {
+                Ok(_) => {
                     // No data available (would block)
                 }
                 Err(e) => {
